@@ -17,11 +17,11 @@ structure Stored where
   w : Nat
   sq : List Bytes
 
-/-- stored headers: height `i + 1` ↦ `st[i]` -/
-abbrev St := List Stored
+/-- stored headers: height `i + 1` ↦ `st[i]` (`none`: removed from the store) -/
+abbrev St := List (Option Stored)
 
-def storeOf (st : St) (h : Nat) : Option Dah := if h = 0 then none else (st[h - 1]?).map Stored.dah
-def squareOf (st : St) (h : Nat) : Option Stored := if h = 0 then none else st[h - 1]?
+def squareOf (st : St) (h : Nat) : Option Stored := if h = 0 then none else (st[h - 1]?).bind id
+def storeOf (st : St) (h : Nat) : Option Dah := (squareOf st h).map Stored.dah
 
 def intArg? (ws : List String) (key : String) : Option Int := (arg? ws key).bind String.toInt?
 
@@ -79,8 +79,19 @@ def step (st : St) (line : String) : St × String :=
   | "reset" :: _ => ([], "ok")
   | "header" :: _ =>
     match parseDah ws, natArg? ws "w", hexListArg? ws "data" with
-    | some d, some w, some sq => (st ++ [⟨d, w, sq⟩], s!"ok h={st.length + 1}")
+    | some d, some w, some sq =>
+      -- `at=N`: (re)store at height N — the next height, or the top height after it was removed
+      let hAt := (natArg? ws "at").getD (st.length + 1)
+      if hAt = st.length + 1 then (st ++ [some ⟨d, w, sq⟩], s!"ok h={hAt}")
+      else if hAt = st.length ∧ hAt ≥ 1 ∧ ((st[hAt - 1]?).bind id).isNone then
+        (st.set (hAt - 1) (some ⟨d, w, sq⟩), s!"ok h={hAt}")
+      else (st, "bad-op")
     | _, _, _ => (st, "bad-op")
+  | "unstore" :: _ =>
+    match natArg? ws "h" with
+    | some h =>
+      if (squareOf st h).isSome then (st.set (h - 1) none, "ok") else (st, "err")
+    | none => (st, "bad-op")
   | "hash" :: _ =>
     match natArg? ws "code", hexArg? ws "input" with
     | some code, some input => (st, showMh (multihash sha (paramsOf ws) (storeOf st) code input))
